@@ -240,6 +240,9 @@ TABLE.update({
     "c10_cse_merged_ids_not_recorded.diff": ("contracts.c10", "CSEOptimizer.optimize", "anonymous"),
     "c10_cse_anonymous_keeps_no_name.diff": ("contracts.c10", "CSEOptimizer.optimize", "anonymous"),
     "c20_merged_names_not_resolved.diff": ("box", "contracts.c20b:analyze_contract:analyze_arg_sets", None),
+    "c02_edge_locks_string_order.diff": ("box", "contracts.c12:edge_locks:edge_locks_arg_sets", None),
+    "c02_edge_locks_same_colour.diff": ("box", "contracts.c12:edge_locks:edge_locks_arg_sets", None),
+    "c02_edge_locks_without_chain.diff": ("box", "contracts.c12:edge_locks:edge_locks_arg_sets", None),
     "c12_populate_ignores_planned_colour.diff": ("box", "contracts.c12:populate:populate_arg_sets", None),
     "c04_populate_feedback_pair_into_tree.diff": ("box", "contracts.c12:populate:populate_arg_sets", None),
     "c12_populate_groups_by_signal_only.diff": ("box", "contracts.c12:populate:populate_arg_sets", None),
